@@ -44,13 +44,13 @@ META = dict(
          "(parseString_terminates) and scan_string, whose own loop budget 2*len+4 never runs out (scanString_terminates). "
          "advancing_of_nonempty gives the simpler sufficient condition (such bodies / ignorables "
          "never match empty), and advOk g k is an EXECUTABLE sufficient test for it (every ignorable / repetition body is a "
-         "token leaf Literal/Word/CharsNotIn, an And containing one, a MatchFirst of such, or a Group/Suppress/Combine/Located/"
-         "Forward wrapper of such; soundness consumes_sound, PPProofs/Lemmas/ParseStrict.lean): for tables passing rankOk "
+         "token leaf Literal/Word/CharsNotIn/non-empty CaselessLiteral/Keyword, an And containing one, a MatchFirst or Or of "
+         "such, or a OneOrMore/Group/Suppress/Combine/Located/Forward wrapper of such; soundness consumes_sound, PPProofs/Lemmas/ParseStrict.lean): for tables passing rankOk "
          "and advOk, termination holds on EVERY input with decidable hypotheses only (acyclic_terminates_checked, "
          "entry_points_terminate_checked); exG_advancing instantiates it for a concrete 4-node grammar. The inner loops' "
          "private budgets (len+2) are shown never to run out (positions strictly increase and stay <= len+1). PARTIAL: "
          "recursive grammars (Forward cycles) are outside the termination theorem, Advancing is a semantic hypothesis "
-         "(advOk decides only a sufficient fragment: Or, OneOrMore, SkipTo, keywords as bodies are not recognised), the "
+         "(advOk decides only a sufficient fragment: SkipTo, Opt, lookaheads, anchors as bodies are not recognised), the "
          "harness does not yet evaluate rankOk/advOk on the extracted grammars, and the theorem is about the "
          "model (`hang` = where the code would loop), tied to the code by the correspondence stream; termination of the real "
          "entry points is observed by the oracle's per-case alarm; the other internal exception types, the diagnostic accessors and every class outside the model (Each, Regex, QuotedString, White, Dict, "
